@@ -363,7 +363,7 @@ class World(object):
         sc = getattr(context, "scenario", None)
         e = self.elem_of(sc)
         sid = e.eid if e is not None else "?"
-        if "<" in full:
+        if "<" in full and e is not None and e.kind == "row":
             self.events.append(("unrendered-placeholder", sid, full))       # a row's step must carry the row's value
         self.calls.append((sid, src))
         self.timeline.append(("call", sid, src))
